@@ -59,8 +59,20 @@ func runC20(rng *rand.Rand, scale int, out string, shards int, seed int64, corpu
 		if scale == 0 {
 			break // replays: corpus only
 		}
+		type exp struct{ mode, val string }
+		var exps []exp
 		for _, m := range defModes {
+			exps = append(exps, exp{m, ""})
+		}
+		for _, v := range extraVals[s.Name] {
+			exps = append(exps, exp{"D", v}, exp{"F", v})
+		}
+		for _, e := range exps {
+			m := e.mode
 			pc := makePlanted(s, m)
+			if e.val != "" {
+				pc = makePlantedValue(s, m, e.val)
+			}
 			if !s.Subst {
 				// reference of an untouched field: the same text, the definitions renamed away
 				pc.Ref.Files["m.cfg"] = strings.ReplaceAll(pc.In.Files["m.cfg"], "parameter p defaults", "parameter p_unused defaults")
@@ -85,7 +97,11 @@ func runC20(rng *rand.Rand, scale int, out string, shards int, seed int64, corpu
 			rec.Same = sameOutcome(rec.Obs, rec.RefObs)
 			planted = append(planted, rec)
 			sum.note(pc.In, rec.Obs)
-			sum.Faults["planted:"+m]++
+			if e.val != "" {
+				sum.Faults["planted-value:"+m]++
+			} else {
+				sum.Faults["planted:"+m]++
+			}
 			cls := "untouched"
 			if s.Subst {
 				cls = "substituted"
@@ -219,7 +235,19 @@ func runC20(rng *rand.Rand, scale int, out string, shards int, seed int64, corpu
 			break
 		}
 		sum.note(g, o)
-		graphs = append(graphs, graphRec{g, o, ref})
+		gr := graphRec{In: g, Obs: o, Ref: ref, SpliceSame: true}
+		if !ref.Err {
+			// include = splice: the same text with every included file written in
+			// place of its clause must read the same
+			sp := &input{Files: map[string]string{"m.cfg": strings.Join(ref.Inlined, "\n") + "\n"}, Main: "m.cfg", Defines: g.Defines, IP: []string{""}, Stream: "graph-inlined"}
+			so := observe(sp)
+			if so.Kind == "skipped" {
+				break
+			}
+			gr.Spliced, gr.SplicedObs = sp, &so
+			gr.SpliceSame = sameOutcome(o, so)
+		}
+		graphs = append(graphs, gr)
 		parse = append(parse, parseRec{g, o})
 	}
 	sum.WallParse = time.Since(t0).Seconds()
@@ -245,8 +273,8 @@ func runC20(rng *rand.Rand, scale int, out string, shards int, seed int64, corpu
 		for _, r := range planted[lo:hi] {
 			defined := r.Case.Mode != "N"
 			posOK := r.Obs.HasPos && r.Obs.Pos.File == modelRoot+"/m.cfg" && r.Obs.Pos.Line == r.Case.Line
-			items = append(items, fmt.Sprintf("mkPL %s %s %d%%N %d%%N %s %s %s %d%%N",
-				vh.Bool(r.Case.Subst), vh.Bool(defined), kindCode(r.Obs), r.Obs.Cls,
+			items = append(items, fmt.Sprintf("mkPL %s %s %s %d%%N %d%%N %s %s %s %d%%N",
+				vh.Bool(r.Case.Subst), vh.Bool(defined), vh.Bool(r.Case.NeedAccept), kindCode(r.Obs), r.Obs.Cls,
 				vh.Bool(r.Obs.Kind == "rejected" && strings.Contains(r.Obs.ErrShort, "~p~")), vh.Bool(posOK), vh.Bool(r.Same), kindCode(r.RefObs)))
 		}
 		sb.WriteString("Definition planted_cases : list planted_case := " + vh.ListNL(items) + ".\n")
@@ -280,9 +308,9 @@ func runC20(rng *rand.Rand, scale int, out string, shards int, seed int64, corpu
 			if !r.Ref.Err {
 				exp = "(Some " + coqStrList(r.Ref.Titles) + ")"
 			}
-			items = append(items, fmt.Sprintf("(%s, %s, %s)", coqParseCase(r.In, r.Obs), exp, coqStrList(r.Obs.Titles)))
+			items = append(items, fmt.Sprintf("(%s, %s, %s, %s)", coqParseCase(r.In, r.Obs), exp, coqStrList(r.Obs.Titles), vh.Bool(r.SpliceSame)))
 		}
-		sb.WriteString("Definition graph_cases : list (parse_case * option (list (list byte)) * list (list byte)) := " + vh.ListNL(items) + ".\n")
+		sb.WriteString("Definition graph_cases : list graph_case := " + vh.ListNL(items) + ".\n")
 		vh.WriteFile(out, fmt.Sprintf("cases_%d.v", k), sb.String())
 	}
 	for i := 0; i < len(parse) && len(sum.Samples) < 14; i += 1 + len(parse)/14 {
